@@ -1,6 +1,8 @@
 import ColoVerif.Gen.Api
 import ColoVerif.Gen.Params
+import ColoVerif.Gen.ApiExpansion
 import ColoVerif.Proofs.BusyLemmas
+import ColoVerif.Proofs.ApiExpansion
 import ColoVerif.Model.LegacyBusy
 /-
 C19 — invalid inputs are refused with an error, not undefined behaviour.
@@ -153,5 +155,204 @@ theorem nets_validated_setNets :
 example : ∃ f ∈ Api.setters, f.name = "setNets" := by decide
 example : ∃ f ∈ Api.setters, f.name ∈ lengthChecked := by decide
 example : (⟨3, 0, [⟨2, [0, 5], 0⟩, ⟨2, [], 0⟩, ⟨2, [], 0⟩, ⟨0, [], 0⟩]⟩ : Env).arg 0 |>.vals |>.any (fun c => decide (c < 0 ∨ (3 : Int) ≤ c)) := by decide
+
+/-! ### the rest of the public surface: expansion API, Disruption methods, constructor
+
+`Gen.ApiExpansion` (regenerated from `src/coloquinte.cpp` on every run) holds, for each public non-const
+method of `Circuit` that is not in `Gen.Api`, its validation prefix (the `throwIf`s reached before anything
+else) and the members the remainder may write.  binary32 values are the integers `x · 2^149`. -/
+
+/-- the binary32 value `m · 2^e` in the representation of the tables — hand-written -/
+def f32 (m e : Int) : Int := m * 2 ^ (e + 149).toNat
+
+/-- `0.999f` = 16760439 · 2⁻²⁴, the tolerance below the documented minimum 1 of an expansion factor -/
+def factorBound : Int := f32 16760439 (-24)
+/-- `1.0f` -/
+def oneF : Int := f32 1 0
+
+theorem expansion_translated :
+    ApiExpansion.validated.map (·.name) =
+      ["expandCellsToDensity", "expandCellsByFactor", "meanDisruption", "rmsDisruption", "maxDisruption"] ∧
+    ApiExpansion.constValidated.map (·.name) = ["computeCellExpansion"] ∧
+    ApiExpansion.constructors.map (·.name) = ["Circuit"] ∧
+    ApiExpansion.floatScale = 149 ∧
+    (∀ f ∈ ApiExpansion.validated ++ ApiExpansion.constValidated, checksThenStraight f.body = true) := by decide
+
+/-- `expandCellsByFactor(expansionFactor, maxDensity, rowSideMargin)`: a factor vector whose length is not
+the number of cells is refused before any member of the circuit is written. -/
+theorem expansion_length_checked :
+    ∀ f ∈ ApiExpansion.validated, f.name = "expandCellsByFactor" → ∀ (env : Env) (st : St),
+      (env.arg 0).len ≠ env.nbCells → exec noCall env f.body st = ⟨.thrown, st, []⟩ := by
+  intro f hf hn env st hne
+  have key : ∀ f ∈ ApiExpansion.validated, f.name = "expandCellsByFactor" → lenCondAt 0 ∈ preConds f.body := by decide
+  exact exec_preConds noCall env f.body st ⟨_, key f hf hn, lenCondAt_eval env 0 hne⟩
+
+/-- … and so is a vector with a factor below `0.999f`. -/
+theorem expansion_factor_checked :
+    ∀ f ∈ ApiExpansion.validated, f.name = "expandCellsByFactor" → ∀ (env : Env) (st : St),
+      (∃ x ∈ (env.arg 0).vals, x < factorBound) → exec noCall env f.body st = ⟨.thrown, st, []⟩ := by
+  intro f hf hn env st hbad
+  have key : ∀ f ∈ ApiExpansion.validated, f.name = "expandCellsByFactor" →
+      Cond.anyElem 0 (.lt .elem (.lit factorBound)) ∈ preConds f.body := by decide
+  exact exec_preConds noCall env f.body st ⟨_, key f hf hn, (anyBelow_eval env 0 factorBound).mpr hbad⟩
+
+/-- These two are the only refusals of `expandCellsByFactor`: it throws iff the length is wrong or some
+factor is below `0.999f` (factors in `[0.999f, 1)` are accepted although the documentation asks for at
+least 1; `maxDensity` and `rowSideMargin` are not validated at all). -/
+theorem expansion_refused_iff :
+    ∀ f ∈ ApiExpansion.validated, f.name = "expandCellsByFactor" → ∀ (env : Env) (st : St),
+      ((exec noCall env f.body st).out = .thrown ↔
+        ((env.arg 0).len ≠ env.nbCells ∨ ∃ x ∈ (env.arg 0).vals, x < factorBound)) := by
+  intro f hf hn env st
+  have key : ∀ f ∈ ApiExpansion.validated, f.name = "expandCellsByFactor" →
+      preConds f.body = [lenCondAt 0, Cond.anyElem 0 (.lt .elem (.lit factorBound))] ∧
+      checksThenStraight f.body = true := by decide
+  obtain ⟨k1, k2⟩ := key f hf hn
+  rw [exec_thrown_iff noCall env f.body st k2, k1]
+  constructor
+  · rintro ⟨c, hm, hc⟩
+    simp only [List.mem_cons, List.mem_nil_iff, or_false] at hm
+    rcases hm with rfl | rfl
+    · left
+      intro heq
+      simp [lenCondAt, Cond.eval, Expr.eval, heq] at hc
+    · right; exact (anyBelow_eval env 0 factorBound).mp hc
+  · rintro (h | h)
+    · exact ⟨_, by simp, lenCondAt_eval env 0 h⟩
+    · exact ⟨_, by simp, (anyBelow_eval env 0 factorBound).mpr h⟩
+
+/-- `computeCellExpansion(congestionMap, fixedPenalty, penaltyFactor)` (const) refuses exactly
+`fixedPenalty < 0` and `penaltyFactor < 1`, before anything else. -/
+theorem cell_expansion_params_checked :
+    ∀ f ∈ ApiExpansion.constValidated, f.name = "computeCellExpansion" → ∀ (env : Env) (st : St),
+      (((env.arg 1).ival < 0 ∨ (env.arg 2).ival < oneF) → exec noCall env f.body st = ⟨.thrown, st, []⟩) ∧
+      ((exec noCall env f.body st).out = .thrown ↔ ((env.arg 1).ival < 0 ∨ (env.arg 2).ival < oneF)) := by
+  intro f hf hn env st
+  have key : ∀ f ∈ ApiExpansion.constValidated, f.name = "computeCellExpansion" →
+      preConds f.body = [Cond.or (.lt (.param 1) (.lit 0)) (.lt (.param 2) (.lit oneF))] ∧
+      checksThenStraight f.body = true ∧ assigned f.body = [] := by decide
+  obtain ⟨k1, k2, _⟩ := key f hf hn
+  have ev : Cond.eval env 0 (Cond.or (.lt (.param 1) (.lit 0)) (.lt (.param 2) (.lit oneF))) = true ↔
+      ((env.arg 1).ival < 0 ∨ (env.arg 2).ival < oneF) := by
+    simp only [Cond.eval, Expr.eval, Bool.or_eq_true]
+    constructor
+    · rintro (h | h)
+      · exact Or.inl (of_decide_eq_true h)
+      · exact Or.inr (of_decide_eq_true h)
+    · rintro (h | h)
+      · exact Or.inl (decide_eq_true h)
+      · exact Or.inr (decide_eq_true h)
+  constructor
+  · intro h
+    exact exec_preConds noCall env f.body st ⟨_, by rw [k1]; simp, ev.mpr h⟩
+  · rw [exec_thrown_iff noCall env f.body st k2, k1]
+    constructor
+    · rintro ⟨c, hm, hc⟩
+      simp only [List.mem_cons, List.mem_nil_iff, or_false] at hm
+      subst hm
+      exact ev.mp hc
+    · intro h
+      exact ⟨_, by simp, ev.mpr h⟩
+
+/-- `meanDisruption / rmsDisruption / maxDisruption (a, b, costModel)`: a solution whose length is not the
+number of cells is refused first (the test is in the private `allDistances` they start with). -/
+theorem disruption_lengths_checked :
+    ∀ f ∈ ApiExpansion.validated, f.name ∈ ["meanDisruption", "rmsDisruption", "maxDisruption"] →
+      ∀ (env : Env) (st : St), ((env.arg 0).len ≠ env.nbCells ∨ (env.arg 1).len ≠ env.nbCells) →
+        exec noCall env f.body st = ⟨.thrown, st, []⟩ := by
+  intro f hf hn env st hbad
+  have key : ∀ f ∈ ApiExpansion.validated, f.name ∈ ["meanDisruption", "rmsDisruption", "maxDisruption"] →
+      Cond.or (lenCondAt 0) (lenCondAt 1) ∈ preConds f.body ∧ assigned f.body = [] := by decide
+  refine exec_preConds noCall env f.body st ⟨_, (key f hf hn).1, ?_⟩
+  rcases hbad with h | h
+  · simp [Cond.eval, lenCondAt_eval env 0 h]
+  · simp [Cond.eval, lenCondAt_eval env 1 h]
+
+/-- `expandCellsToDensity(targetDensity, rowSideMargin, maxExpandedWidth)` validates nothing: no argument
+is ever refused (a target outside (0,1), a negative margin or a negative maximum width included); the only
+member it may write is `cellWidth_`, and the same holds for `expandCellsByFactor`. -/
+theorem density_expansion_unvalidated :
+    (∀ f ∈ ApiExpansion.validated, f.name = "expandCellsToDensity" → preConds f.body = [] ∧
+      ∀ (env : Env) (st : St), (exec noCall env f.body st).out = .normal) ∧
+    (∀ f ∈ ApiExpansion.validated, ∀ m ∈ assigned f.body, m = "cellWidth_") := by
+  constructor
+  · intro f hf hn
+    have key : ∀ f ∈ ApiExpansion.validated, f.name = "expandCellsToDensity" →
+        preConds f.body = [] ∧ checksThenStraight f.body = true := by decide
+    obtain ⟨k1, k2⟩ := key f hf hn
+    refine ⟨k1, fun env st => exec_checksThenStraight noCall env f.body st k2 ?_⟩
+    rw [k1]; intro c hc; cases hc
+  · decide
+
+/-- `Circuit(int nbCells)` with a negative count: the first statement is `cellWidth_.resize(nbCells)`,
+where the count converted to `size_type` exceeds `max_size()` and `std::vector::resize` throws
+`std::length_error` — before any member is written (the translator emits that library fact as the leading
+`throwIf`; the harness observes the real exception class for negative counts down to `INT_MIN`). -/
+theorem constructor_negative_count_refused :
+    ApiExpansion.publicConstructors = [["int"]] ∧
+    ∀ f ∈ ApiExpansion.constructors, ∀ (env : Env) (st : St), (env.arg 0).ival < 0 →
+      exec noCall env f.body st = ⟨.thrown, st, []⟩ := by
+  refine ⟨by decide, ?_⟩
+  intro f hf env st hneg
+  have key : ∀ f ∈ ApiExpansion.constructors, Cond.lt (.param 0) (.lit 0) ∈ preConds f.body := by decide
+  exact exec_preConds noCall env f.body st ⟨_, key f hf, by simp [Cond.eval, Expr.eval, hneg]⟩
+
+/-! ### the table is the whole surface -/
+
+/-- (name, arity) of everything the tables cover -/
+def coveredMutators : List (String × Nat) :=
+  Api.setters.map (fun f => (f.name, f.params.length)) ++
+  Api.placementCalls.map (fun f => (f.name, f.params.length)) ++
+  ApiExpansion.effortWrappers.map (fun w => (w.1, 1)) ++
+  ApiExpansion.validated.map (fun f => (f.name, f.params.length))
+
+/-- The public non-const methods of `Circuit` found in the class definition are exactly the methods of the
+tables (by name and arity): a new public mutator, or a new overload of an old one, breaks this theorem until
+it is translated.  The `(int effort)` wrappers consist of calls of wrappers and placement calls only. -/
+theorem every_public_mutator_covered :
+    (∀ m ∈ ApiExpansion.publicMutators, m ∈ coveredMutators) ∧
+    (∀ m ∈ coveredMutators, m ∈ ApiExpansion.publicMutators) ∧
+    (∀ w ∈ ApiExpansion.effortWrappers, ∀ c ∈ w.2,
+      c ∈ ApiExpansion.effortWrappers.map (fun w => (w.1, 1)) ∨
+      c ∈ Api.placementCalls.map (fun f => (f.name, f.params.length))) := by decide
+
+/-- vector parameters that must have one element per cell — hand-written specification -/
+def perCellVectors : List (String × Nat) :=
+  lengthChecked.map (fun n => (n, 0)) ++
+  [("expandCellsByFactor", 0), ("meanDisruption", 0), ("meanDisruption", 1), ("rmsDisruption", 0),
+   ("rmsDisruption", 1), ("maxDisruption", 0), ("maxDisruption", 1)]
+
+/-- the other vector parameters of public methods — hand-written: rows (any number), pins of one net /
+of all nets and net limits (`nets_validated_*`), one weight per net (`net_weights_length_checked`),
+additional obstacles and congestion regions (any number) -/
+def otherVectors : List (String × Nat) :=
+  [("setRows", 0), ("addNet", 0), ("addNet", 1), ("addNet", 2), ("setNets", 0), ("setNets", 1), ("setNets", 2),
+   ("setNets", 3), ("setNets", 4), ("setNetWeights", 0), ("computeRows", 0), ("computeCellExpansion", 0)]
+
+/-- Every vector-typed parameter of a public method of `Circuit` is classified, and every per-cell one is
+length-checked: a vector whose length differs from the number of cells is refused by the method with the
+circuit unchanged — setters, expansion and Disruption methods alike. -/
+theorem per_cell_vectors_refused :
+    (∀ v ∈ ApiExpansion.vectorParams, (v.1, v.2.2) ∈ perCellVectors ∨ (v.1, v.2.2) ∈ otherVectors) ∧
+    (∀ p ∈ perCellVectors, ∃ f ∈ Api.setters ++ ApiExpansion.validated, f.name = p.1) ∧
+    ∀ p ∈ perCellVectors, ∀ f ∈ Api.setters ++ ApiExpansion.validated, f.name = p.1 → ∀ (env : Env) (st : St),
+      (env.arg p.2).len ≠ env.nbCells → exec noCall env f.body st = ⟨.thrown, st, []⟩ := by
+  refine ⟨by decide, by decide, ?_⟩
+  intro p hp f hf hn env st hne
+  have key : ∀ p ∈ perCellVectors, ∀ f ∈ Api.setters ++ ApiExpansion.validated, f.name = p.1 →
+      ∃ c ∈ preConds f.body, hasDisjunct (lenCondAt p.2) c = true := by decide
+  obtain ⟨c, hm, hd⟩ := key p hp f hf hn
+  exact exec_preConds noCall env f.body st ⟨c, hm, hasDisjunct_eval env 0 _ c hd (lenCondAt_eval env p.2 hne)⟩
+
+/-! Non-vacuity. -/
+example : ∃ f ∈ ApiExpansion.validated, f.name = "expandCellsByFactor" := by decide
+example : ∃ f ∈ ApiExpansion.constValidated, f.name = "computeCellExpansion" := by decide
+example : ∃ f ∈ ApiExpansion.constructors, f.name = "Circuit" := by decide
+-- 0.9989f < 0.999f ≤ 1.0f in the representation of the tables
+example : f32 16758761 (-24) < factorBound ∧ factorBound < oneF := by decide
+-- a refused call of each kind: 3 cells; two factors / three factors one of which is 0.5f / fixedPenalty = -2⁻¹⁴⁹
+example : ((⟨3, 0, [⟨2, [oneF, oneF], 0⟩]⟩ : Env).arg 0).len ≠ (⟨3, 0, [⟨2, [oneF, oneF], 0⟩]⟩ : Env).nbCells := by decide
+example : ∃ x ∈ ((⟨3, 0, [⟨3, [oneF, f32 1 (-1), oneF], 0⟩]⟩ : Env).arg 0).vals, x < factorBound := by decide
+example : ((⟨3, 0, [⟨1, [], 0⟩, ⟨0, [], -1⟩, ⟨0, [], oneF⟩]⟩ : Env).arg 1).ival < 0 := by decide
 
 end ColoVerif.C19
